@@ -9,7 +9,7 @@ use crate::{
     },
     codec::*,
     core::{
-        base_types::{NonZero, QoS},
+        base_types::{NonZero, QoS, VarSizeInt},
         utils::{Encode, SizedPacket},
     },
     PublishData, SubscriptionOpts,
@@ -32,6 +32,26 @@ pub struct ContextHandle {
 }
 
 impl ContextHandle {
+    // Packet identifiers cycle through 1..=u16::MAX, zero is not a valid identifier.
+    fn next_packet_id(&self) -> u16 {
+        self.packet_id
+            .fetch_update(Ordering::Relaxed, Ordering::Relaxed, |val| {
+                Some(if val == u16::MAX { 1 } else { val + 1 })
+            })
+            .unwrap()
+    }
+
+    // Subscription identifiers cycle through 1..=268435455, the range of a Variable Byte Integer.
+    fn next_sub_id(&self) -> u32 {
+        const MAX: u32 = VarSizeInt::MAX as u32;
+
+        self.sub_id
+            .fetch_update(Ordering::Relaxed, Ordering::Relaxed, |val| {
+                Some(if val >= MAX { 1 } else { val + 1 })
+            })
+            .unwrap()
+    }
+
     /// Performs graceful disconnection with the broker by sending the
     /// [Disconnect](https://docs.oasis-open.org/mqtt/mqtt/v5.0/os/mqtt-v5.0-os.html#_Toc3901205) packet.
     ///
@@ -109,7 +129,7 @@ impl ContextHandle {
             }
             QoS::AtLeastOnce => {
                 let packet = opts
-                    .packet_identifier(self.packet_id.fetch_add(1, Ordering::Relaxed))
+                    .packet_identifier(self.next_packet_id())
                     .build()?;
 
                 let mut buf = BytesMut::with_capacity(packet.packet_len());
@@ -141,7 +161,7 @@ impl ContextHandle {
             }
             QoS::ExactlyOnce => {
                 let packet = opts
-                    .packet_identifier(self.packet_id.fetch_add(1, Ordering::Relaxed))
+                    .packet_identifier(self.next_packet_id())
                     .build()?;
 
                 let mut buf = BytesMut::with_capacity(packet.packet_len());
@@ -226,8 +246,8 @@ impl ContextHandle {
         let (str_sender, str_receiver) = mpsc::unbounded();
 
         let packet = opts
-            .packet_identifier(self.packet_id.fetch_add(1, Ordering::Relaxed))
-            .subscription_identifier(self.sub_id.fetch_add(1, Ordering::Relaxed))
+            .packet_identifier(self.next_packet_id())
+            .subscription_identifier(self.next_sub_id())
             .build()?;
 
         let subscription_identifier = NonZero::from(packet.subscription_identifier.unwrap())
@@ -269,7 +289,7 @@ impl ContextHandle {
         let (sender, receiver) = oneshot::channel();
 
         let packet = opts
-            .packet_identifier(self.packet_id.fetch_add(1, Ordering::Relaxed))
+            .packet_identifier(self.next_packet_id())
             .build()?;
 
         let mut buf = BytesMut::with_capacity(packet.packet_len());
